@@ -92,7 +92,40 @@ func BoundaryBinsH(s int, r *simctl.Rand, heavy, protect int) (above, below []in
 }
 
 func prfStream(r *simctl.Rand) StreamSpec {
-	return StreamSpec{Kind: "prf", Seed: r.Uint64(), Tail: []int{0, 0, 1, 37, 4096}[r.Intn(5)], TailSd: r.Uint64()}
+	st := StreamSpec{Kind: "prf", Seed: r.Uint64(), Tail: []int{0, 0, 1, 37, 4096}[r.Intn(5)], TailSd: r.Uint64()}
+	// a source that ends exactly after the last sample may hand out the last
+	// bytes together with io.EOF
+	st.EOFData = st.Tail == 0 && st.TailSd%2 == 0
+	return st
+}
+
+// detPrelude draws an earlier detection made in the same run before the one
+// under observation: any of the six multi-sample workflows (mostly the same
+// one or one of the same sample size), on a healthy source or cut short by a
+// failing one after a few samples. Whatever a workflow keeps between calls
+// (pooled state, a cached error, a reused buffer) only shows through such
+// histories.
+func detPrelude(w string, r *simctl.Rand) []PreludeSpec {
+	pw := w
+	switch r.Intn(4) {
+	case 0:
+		pw = []string{WPeriod, WPeriodFast}[r.Intn(2)]
+	case 1:
+		all := []string{WFactory, WPowerOn, WPeriod, WFactoryFast, WPowerOnFast, WPeriodFast}
+		pw = all[r.Intn(len(all))]
+	}
+	wi := Info(pw)
+	p := PreludeSpec{Workflow: pw, Stream: StreamSpec{Kind: "prf", Seed: r.Uint64()}}
+	if r.Intn(3) > 0 {
+		// cut short inside or exactly after sample k
+		k := 1 + r.Intn(wi.Samples-1)
+		at := int64(k) * int64(wi.SampleBytes)
+		if r.Intn(2) == 0 {
+			at += int64(r.Intn(wi.SampleBytes))
+		}
+		p.Fault = FaultSpec{Kind: []string{"eof", "custom", "partial"}[r.Intn(3)], At: at, Sticky: r.Intn(2) == 0}
+	}
+	return []PreludeSpec{p}
 }
 
 // matrixScenario returns the idx-th scripted-result scenario for a workflow
@@ -299,6 +332,9 @@ func Plan(prop, tier string, seed uint64) []RunConfig {
 						c.Chunk = chunkFor(w, r)
 						c.ReadYield = 0
 					}
+					if r.Intn(4) == 0 {
+						c.Prelude = detPrelude(w, r)
+					}
 					out = append(out, c)
 				}
 			}
@@ -327,11 +363,37 @@ func Plan(prop, tier string, seed uint64) []RunConfig {
 		for _, w := range []string{WPeriodFast, WPowerOnFast, WFactoryFast} {
 			for _, sc := range scenarios(w, r, thorough) {
 				st := prfStream(r)
+				pre := detPrelude(w, r)
 				for k := 0; k < scheds; k++ {
 					W := workerChoices[r.Intn(len(workerChoices))]
-					out = append(out, RunConfig{Prop: prop, Workflow: w, Workers: W, Policy: genPolicy(r, estSteps(w, W)),
-						Stream: st, Chunk: ChunkSpec{Kind: "full"}, Fault: FaultSpec{Kind: "none"}, Runners: sc.spec, ReadYield: 1, Note: sc.name})
+					c := RunConfig{Prop: prop, Workflow: w, Workers: W, Policy: genPolicy(r, estSteps(w, W)),
+						Stream: st, Chunk: ChunkSpec{Kind: "full"}, Fault: FaultSpec{Kind: "none"}, Runners: sc.spec, ReadYield: 1, Note: sc.name}
+					if k%4 == 3 {
+						// the sequential twin repeats the same history, one per scenario
+						c.Prelude = pre
+					}
+					out = append(out, c)
 				}
+			}
+		}
+		// a source that fails once and then delivers again: the sequential
+		// workflow stops with (false, err), so must the Fast one
+		nflt := 8
+		if thorough {
+			nflt = 400
+		}
+		for _, w := range []string{WPeriodFast, WPowerOnFast, WFactoryFast} {
+			wi := Info(w)
+			for i := 0; i < nflt; i++ {
+				W := workerChoices[r.Intn(len(workerChoices))]
+				k := r.Intn(wi.Samples)
+				at := int64(k) * int64(wi.SampleBytes)
+				if i%2 == 1 {
+					at += int64(r.Intn(wi.SampleBytes))
+				}
+				out = append(out, RunConfig{Prop: prop, Workflow: w, Workers: W, Policy: genPolicy(r, estSteps(w, W)),
+					Stream: prfStream(r), Chunk: ChunkSpec{Kind: "full"}, Fault: FaultSpec{Kind: []string{"custom", "partial", "ueof"}[r.Intn(3)], At: at, Sticky: false},
+					Runners: RunnerSpec{Mode: "scripted", Seed: r.Uint64()}, ReadYield: 1, Note: "transient-source-error"})
 			}
 		}
 		nreal := 8
@@ -410,18 +472,29 @@ func Plan(prop, tier string, seed uint64) []RunConfig {
 							if ch.Kind != "full" {
 								ry = 1 + r.Intn(64)
 							}
-							out = append(out, RunConfig{Prop: prop, Workflow: w, Workers: W, Policy: pol,
+							c := RunConfig{Prop: prop, Workflow: w, Workers: W, Policy: pol,
 								Stream: prfStream(r), Chunk: ch, Fault: FaultSpec{Kind: kind, At: f, Sticky: sticky},
-								Runners: RunnerSpec{Mode: "scripted", Seed: r.Uint64()}, ReadYield: ry})
+								Runners: RunnerSpec{Mode: "scripted", Seed: r.Uint64()}, ReadYield: ry}
+							if r.Intn(8) == 0 {
+								c.Prelude = detPrelude(w, r)
+							}
+							out = append(out, c)
 						}
 					}
 				}
 			}
 		}
 		// single-shot
-		lens := []int{1, 2, 15, 16, 17, 39, 40, 41, 1279, 1280, 1281, 4096}
+		// (beyond 4096: sizes at which an implementation may switch to another
+		// way of reading - 64 KiB, 1 MiB and above)
+		lens := []int{1, 2, 15, 16, 17, 39, 40, 41, 1279, 1280, 1281, 4096, 65536, 65537, 1 << 20, 1<<20 + 1, 2 << 20, 3000000, 4<<20 + 5}
 		for _, nb := range lens {
 			fs := map[int]bool{0: true, nb - 1: true, nb / 2: true}
+			if nb > 4096 {
+				fs[16] = true
+				fs[4096] = true
+				fs[nb-1-r.Intn(nb/2)] = true
+			}
 			if thorough {
 				for i := 0; i < nb && i < 64; i++ {
 					fs[i] = true
@@ -476,8 +549,12 @@ func Plan(prop, tier string, seed uint64) []RunConfig {
 					if ch.Kind == "fixed" && ch.K < 61 || ch.Kind == "geom" || ch.Kind == "rand" {
 						ry = []int{7, 50, 400}[r.Intn(3)]
 					}
-					out = append(out, RunConfig{Prop: prop, Workflow: w, Workers: W, Policy: pol, Stream: prfStream(r), Chunk: ch,
-						Fault: FaultSpec{Kind: "none"}, Runners: sc.spec, ReadYield: ry, Note: sc.name})
+					c := RunConfig{Prop: prop, Workflow: w, Workers: W, Policy: pol, Stream: prfStream(r), Chunk: ch,
+						Fault: FaultSpec{Kind: "none"}, Runners: sc.spec, ReadYield: ry, Note: sc.name}
+					if r.Intn(6) == 0 {
+						c.Prelude = detPrelude(w, r)
+					}
+					out = append(out, c)
 				}
 			}
 		}
@@ -519,6 +596,59 @@ func Plan(prop, tier string, seed uint64) []RunConfig {
 			for _, nb := range []int{4097, 5000, 8192, 10240 / 8, 10240/8 + 1, 10240/8 - 1, 12500, 65536, 125000} {
 				out = append(out, singleCase(prop, nb, r))
 			}
+			// selected larger lengths: around powers of two and multiples of 65536
+			// (where narrow counters wrap), on constant, biased and PRF contents
+			for _, nb := range []int{65535, 65536, 65537, 131072, 196608, 262143, 262144, 262145, 270000, 327680, 524288, 1 << 20, 1<<20 + 1000, 1<<21 + 7, 1 << 22} {
+				for k := 0; k < 3; k++ {
+					c := singleCase(prop, nb, r)
+					c.Chunk = ChunkSpec{Kind: "full"}
+					c.Prelude = nil
+					switch k {
+					case 0:
+						c.Stream = StreamSpec{Kind: "const", Byte: []int{0, 0xff, r.Intn(256)}[r.Intn(3)]}
+					case 1:
+						c.Stream = StreamSpec{Kind: "biased", Seed: r.Uint64(), Bias: 126 + r.Intn(5)}
+					default:
+						c.Stream = prfStream(r)
+					}
+					out = append(out, c)
+				}
+			}
+			// call histories within one pattern-length regime: a somewhat longer
+			// request came first, on contrasting content (stuck device then a
+			// healthy one, or the reverse). A scratch buffer kept between calls
+			// at its old length only shows here.
+			for i := 0; i < 400; i++ {
+				var nb int
+				switch i % 4 {
+				case 0, 1:
+					nb = 16 + r.Intn(24) // m = 2
+				case 2:
+					nb = 40 + r.Intn(1240) // m = 4
+				default:
+					nb = 1280 + r.Intn(2817) // m = 8
+				}
+				c := singleCase(prop, nb, r)
+				pn := nb + 1 + r.Intn(1+nb/2)
+				if i%4 < 2 && pn > 39 && r.Intn(4) > 0 {
+					pn = nb + 1 + r.Intn(40-nb)
+					if pn > 39 {
+						pn = 39
+					}
+					if pn <= nb {
+						pn = nb + 1
+					}
+				}
+				if i%2 == 0 {
+					c.Stream = prfStream(r)
+					c.Prelude = []PreludeSpec{{Workflow: WSingle, NumByte: pn, Stream: StreamSpec{Kind: "const", Byte: []int{0x00, 0xff, 0x55}[r.Intn(3)]}}}
+				} else {
+					c.Stream = StreamSpec{Kind: "biased", Seed: r.Uint64(), Bias: []int{96, 104, 150, 160}[r.Intn(4)], Tail: r.Intn(3)}
+					c.Prelude = []PreludeSpec{{Workflow: WSingle, NumByte: pn, Stream: StreamSpec{Kind: "prf", Seed: r.Uint64()}}}
+				}
+				c.Note = "same-regime-history"
+				out = append(out, c)
+			}
 		}
 	case "C14":
 		out = planC14(prop, thorough, r)
@@ -552,9 +682,17 @@ func singleCase(prop string, nb int, r *simctl.Rand) RunConfig {
 	}
 	c := RunConfig{Prop: prop, Workflow: WSingle, NumByte: nb, Workers: 1, Policy: simctl.Policy{Kind: "first"},
 		Stream: st, Chunk: ch, Fault: FaultSpec{Kind: "none"}, Runners: RunnerSpec{Mode: "scripted"}, ReadYield: 1}
+	if st.Kind != "const" && st.Kind != "periodic" && st.Tail == 0 {
+		st.EOFData = r.Intn(2) == 0
+		c.Stream = st
+	}
 	if r.Intn(2) == 0 {
-		// an earlier single-shot detection of another length on another source
-		pn := []int{16, 64, 1280, 4096, 8192, 16 + r.Intn(8000)}[r.Intn(6)]
+		// an earlier single-shot detection of another length on another source:
+		// far away, or a little longer / shorter (same pattern-length regime)
+		pn := []int{16, 64, 1280, 4096, 8192, 16 + r.Intn(8000), nb + 1 + r.Intn(24), nb + 1 + r.Intn(24), 2 * nb, nb - 1 - r.Intn(8)}[r.Intn(10)]
+		if pn < 16 {
+			pn = 16
+		}
 		pk := []string{"prf", "prf", "const"}[r.Intn(3)]
 		c.Prelude = []PreludeSpec{{Workflow: WSingle, NumByte: pn, Stream: StreamSpec{Kind: pk, Seed: r.Uint64(), Byte: r.Intn(256)}}}
 	}
@@ -716,10 +854,29 @@ func planC14(prop string, thorough bool, r *simctl.Rand) []RunConfig {
 			out = append(out, c)
 		}
 	}
-	for _, nb := range []int{5000, 12500, 125000} {
+	// "all lengths >= 16 bytes": beyond 4096 a sample of lengths where counters
+	// and size classes change - powers of two and their neighbours up to 2^24,
+	// multiples of 65536 and of 2^20, and a few seeded ones
+	bigLens := []int{5000, 12500, 125000, 1000000, 12500000}
+	for e := uint(13); e <= 24; e++ {
+		bigLens = append(bigLens, 1<<e-1, 1<<e, 1<<e+1)
+	}
+	for k := 1; k <= 24; k++ {
+		bigLens = append(bigLens, 65536*k, 65536*k+r.Intn(4096))
+	}
+	for k := 0; k < 6; k++ {
+		bigLens = append(bigLens, 4097+r.Intn(1<<22))
+	}
+	for i, nb := range bigLens {
+		if !thorough && nb > 1<<21 && i%3 != 0 {
+			continue
+		}
 		for _, b := range []int{0x00, 0xff} {
 			c := singleCase(prop, nb, r)
 			c.Stream = StreamSpec{Kind: "const", Byte: b}
+			c.Chunk = ChunkSpec{Kind: "full"}
+			c.Prelude = nil
+			c.Note = "single-stuck-big"
 			out = append(out, c)
 		}
 	}
